@@ -281,7 +281,7 @@ pub fn run(cx: &Ctx) {
                 Ingest { ty: ty.clone(), vals, cuts, paths }
             })
         };
-        cx.run_pt(&Paths, cx.by(1200, 12000), cx.workers.min(8), strat, "sequences of 0..700 observations (3/4 shorter than 60), up to 6 segments, every combination of paths");
+        cx.run_pt(&Paths, cx.by(1200, 60000), cx.workers.min(8), strat, "sequences of 0..700 observations (3/4 shorter than 60), up to 6 segments, every combination of paths");
     }
     cx.label("long");
     {
@@ -298,7 +298,7 @@ pub fn run(cx: &Ctx) {
     }
     cx.label("generated");
     let strat = || (prop_oneof![3 => vec(super::c11::c01_value(), 0..80), 1 => vec(super::c11::c01_value(), 80..600)], 0u8..4).prop_map(|(xs, ctor)| Conc { xs, ctor });
-    cx.run_pt(&Concat, cx.by(3000, 30000), cx.workers, strat, "sequences of 0..80 observations x 4 constructors x 4 concatenate! structs");
+    cx.run_pt(&Concat, cx.by(3000, 300000), cx.workers, strat, "sequences of 0..80 observations x 4 constructors x 4 concatenate! structs");
 }
 
 pub fn replay(check: &str, case: &serde_json::Value) -> Option<Result<(), String>> {
